@@ -126,6 +126,55 @@ fn verif_search_wipe() {
             }
         }
     }
+    // (3) crash / restart histories through the public interface only: a segment left with generation g0
+    // (odd = the previous daemon died mid-update) and an attached client; the restarted daemon's
+    // publications must reach that client without reopening, in order, and the generation must stay even
+    // and non-zero after every completed update (C04 a/b, C11), across the 16-bit wrap as well.
+    if replay.is_none() {
+        let cpath = std::ffi::CString::new(path.as_os_str().as_bytes()).unwrap();
+        let starts: [(u16, u32); 10] = [(2, 12), (3, 12), (7, 12), (8, 12), (21, 12), (65533, 12), (65534, 12), (65535, 12), (32767, 12), (4, 70_000)];
+        for (g0, n) in starts {
+            let _ = std::fs::remove_file(&path);
+            let mut content = valid_segment(72);
+            content[14..16].copy_from_slice(&g0.to_ne_bytes());
+            content.resize(72, 0);
+            content[48..56].copy_from_slice(&777i64.to_ne_bytes()); // bound_nsec of the record left behind
+            // an odd g0 means: the previous daemon had published generation g0 - 1 (which the attached client
+            // has seen and cached) and then died between the two generation stores of its next update
+            if g0 & 1 == 1 {
+                content[14..16].copy_from_slice(&(g0 - 1).to_ne_bytes());
+            }
+            std::fs::write(&path, &content).unwrap();
+            let mut attached = ShmReader::new(cpath.as_c_str()).unwrap();
+            let _ = attached.snapshot();
+            if g0 & 1 == 1 {
+                use std::io::{Seek, SeekFrom, Write};
+                let mut f = std::fs::OpenOptions::new().write(true).open(&path).unwrap();
+                f.seek(SeekFrom::Start(14)).unwrap();
+                f.write_all(&g0.to_ne_bytes()).unwrap();
+            }
+            let mut w = ShmWriter::new(&path).unwrap();
+            for i in 1..=n {
+                let rec = ClockErrorBound::new(libc::timespec { tv_sec: 1000 + i as i64, tv_nsec: 1 }, libc::timespec { tv_sec: 2000 + i as i64, tv_nsec: 0 },
+                                               10_000 + i as i64, 5_000, 0, ClockStatus::Synchronized);
+                w.write(&rec);
+                evals += 1;
+                let gen = u16::from_ne_bytes(file_bytes(&path)[14..16].try_into().unwrap());
+                let input = format!("len=-2 fill={}", g0);
+                if (gen == 0 || gen & 1 == 1) && !found.contains_key("C11.e2e.generation_even_nonzero_after_every_write") {
+                    println!("VERIF-FOUND obligation=C11.e2e.generation_even_nonzero_after_every_write input: {}", input);
+                    println!("VERIF-NOTE segment left at generation {}, restarted writer, after write #{} the generation is {}", g0, i, gen);
+                    found.insert("C11.e2e.generation_even_nonzero_after_every_write", input.clone());
+                }
+                let seen = attached.snapshot().ok().copied();
+                if seen != Some(rec) && !found.contains_key("C04.e2e.attached_reader_follows_restarted_writer") {
+                    println!("VERIF-FOUND obligation=C04.e2e.attached_reader_follows_restarted_writer input: {}", input);
+                    println!("VERIF-NOTE segment left at generation {}, restarted writer, after write #{} (generation {}) the attached reader returns {:?}", g0, i, gen, seen);
+                    found.insert("C04.e2e.attached_reader_follows_restarted_writer", input);
+                }
+            }
+        }
+    }
     let _ = std::fs::remove_dir_all(&dir);
     if replay.is_some() {
         println!("VERIF-REPLAY failing clauses: {:?}", found.keys().collect::<Vec<_>>());
